@@ -263,7 +263,7 @@ def oracle(case, io):
     scale = max(1.0, max(abs(v) for v in es + ns + list(box)))
     tol = 1e-9 * scale
     # centres: regular grid of the region shrunk by half a window
-    if abs(east[0] - (box[0] + half)) > tol or abs(north[0] - (box[2] + half)) > tol:
+    if not (abs(east[0] - (box[0] + half)) <= tol and abs(north[0] - (box[2] + half)) <= tol):
         return f"first window centre {(east[0], north[0])} is not the south-west corner of the region shrunk by half a window"
     for line in (east, north):
         d = np.diff(line)
